@@ -1,5 +1,6 @@
 import YardlModel.Evolution
 import YardlProofs.ConvRefl
+import YardlProofs.ConvFields
 
 /-!
 # C05 — Accepted schema evolution preserves data across versions
@@ -22,6 +23,9 @@ Proved here:
   detectUnionChanges, vectors and optionals element-wise.
 * `integer_conversion_checks_range` — between any two integer types exactly the values inside the
   target's range convert (unchanged); all others are the documented runtime error; `every_integer_has_a_range`.
+* `added_field_conversions`, `added_field_round_trip` — adding a field, for every record and value: the reader
+  zeroes the new field and keeps the others, the writer for the previous version drops it, and old data comes back
+  unchanged; `integer_widening_round_trip`.
 * `record_fields_convert_by_name`, `added_fields_are_defaulted`, `removed_fields_are_dropped`,
   `integer_narrowing_overflows` — the documented behaviours on concrete shapes (kernel-evaluated).
 * `primitive pairs`: the classes come from C06 (`primitive_change_table`, regenerated from source).
@@ -77,6 +81,37 @@ theorem integer_conversion_checks_range (src dst : Prim) (i lo hi : Int) (hs : p
 example : convPrim .uint32 .int32 (.int 3000000000) = .err "Numeric overflow" ∧ convPrim .int32 .uint32 (.int (-1)) = .err "Numeric overflow" ∧
     convPrim .uint32 .int32 (.int 2147483647) = .ok (.int 2147483647) := by
   refine ⟨rfl, rfl, rfl⟩
+
+/-- adding a field to a record (documented: compatible when optional, else partially compatible), for every record
+    and every value: the new reader keeps every old field and gives the new one its zero value; the new writer
+    asked for the previous version keeps every old field and drops the new one; so a previous-version value that
+    passes through the new version comes back unchanged -/
+theorem added_field_conversions (fuel : Nat) (r : Nat) (fs : List (Nat × ETy)) (n : Nat) (t : ETy) (vs : List Val) (x : Val)
+    (hd : namesDistinct fs = true) (hfresh : ∀ e ∈ fs, e.1 ≠ n)
+    (hw : ∀ e ∈ fs, wfT e.2 = true ∧ depth e.2 ≤ fuel) (hfit : fitsF (fieldsOfList fs) vs = true) :
+    conv true (fuel + 1) (.record r (fieldsOfList fs)) (.record r (fieldsOfList (fs ++ [(n, t)]))) (.record vs)
+      = .ok (.record (vs ++ [zero (depth t + 1) t])) ∧
+    conv false (fuel + 1) (.record r (fieldsOfList (fs ++ [(n, t)]))) (.record r (fieldsOfList fs)) (.record (vs ++ [x]))
+      = .ok (.record vs) :=
+  ⟨added_field_read fuel r fs n t vs hd hfresh hw hfit, added_field_write fuel r fs n t vs x hd hfresh hw hfit⟩
+
+theorem added_field_round_trip (fuel : Nat) (r : Nat) (fs : List (Nat × ETy)) (n : Nat) (t : ETy) (vs : List Val)
+    (hd : namesDistinct fs = true) (hfresh : ∀ e ∈ fs, e.1 ≠ n)
+    (hw : ∀ e ∈ fs, wfT e.2 = true ∧ depth e.2 ≤ fuel) (hfit : fitsF (fieldsOfList fs) vs = true) :
+    (match conv true (fuel + 1) (.record r (fieldsOfList fs)) (.record r (fieldsOfList (fs ++ [(n, t)]))) (.record vs) with
+     | .ok v => conv false (fuel + 1) (.record r (fieldsOfList (fs ++ [(n, t)]))) (.record r (fieldsOfList fs)) v
+     | e => e) = .ok (.record vs) :=
+  Evo.added_field_round_trip fuel r fs n t vs hd hfresh hw hfit
+
+/-- widening an integer and narrowing it back loses nothing -/
+theorem integer_widening_round_trip (a b : Prim) (i lo hi lo' hi' : Int) (ha : pkind a = .integer) (hb : pkind b = .integer)
+    (hne : a ≠ b) (hra : a.range = some (lo, hi)) (hrb : b.range = some (lo', hi')) (hin : lo ≤ i ∧ i ≤ hi)
+    (hsub : lo' ≤ lo ∧ hi ≤ hi') :
+    convPrim a b (.int i) = .ok (.int i) ∧ convPrim b a (.int i) = .ok (.int i) := by
+  rw [integer_conversion_checks_range a b i lo' hi' ha hb hne hrb,
+      integer_conversion_checks_range b a i lo hi hb ha (Ne.symm hne) hra]
+  have h1 : lo' ≤ i ∧ i ≤ hi' := ⟨by omega, by omega⟩
+  simp [h1, hin]
 
 def recOld : ETy := .record 1 (.cons 10 (.prim .int32) (.cons 11 (.prim .string) (.cons 12 (.optional (.prim .int16)) .nil)))
 def recNew : ETy := .record 1 (.cons 11 (.prim .string) (.cons 13 (.vector (.prim .uint8) none) (.cons 10 (.prim .int64) .nil)))
